@@ -238,8 +238,10 @@ def p_ptrformula_1(t):
 def p_ptrformula_2(t):
     '''ptrformula : PTRSIZE opt_seg_colon formula'''
     t[0] = t[1]
-    if t[2][x86_afs.segm] != 3:
+    if t[2][x86_afs.segm] != 3 or \
+            x86_afs.reg_dict[x86_afs.r_esp] in t[3] or x86_afs.reg_dict[x86_afs.r_ebp] in t[3]:
         # We don't mention the DS segment, which is implicit
+        # (unless esp/ebp is used: the implicit segment may be SS)
         t[0].update(t[2])
     t[0].update(t[3])
 
